@@ -16,7 +16,7 @@
 EXTENDS Naturals, Sequences, FiniteSets, TLC
 CONSTANTS MaxReq, Weak
 VARIABLES phase,    \* "start" | "M2" | "M4" | "M4err" | "M6" | "V2" | "V4" | "talk"
-          code,     \* "right" | "wrong"
+          code,     \* "right" | "wrong" | "retry" (a wrong code first, then the right one on the same connection)
           stored,   \* the controller's pairing is stored
           mode,     \* [c2a, a2c] : "plain" | "enc"   what each direction is framed as from now on
           nreq,
@@ -24,7 +24,7 @@ VARIABLES phase,    \* "start" | "M2" | "M4" | "M4err" | "M6" | "V2" | "V4" | "t
 vars == <<phase, code, stored, mode, nreq, last>>
 Guard(g) == g \notin Weak
 
-Init == /\ phase = "start" /\ code \in {"right", "wrong"} /\ stored = FALSE
+Init == /\ phase = "start" /\ code \in {"right", "wrong", "retry"} /\ stored = FALSE
         /\ mode = [c2a |-> "plain", a2c |-> "plain"] /\ nreq = 0 /\ last = [m |-> "none", framed |-> "plain"]
 Say(m) == last' = [m |-> m, framed |-> mode.a2c]
 
@@ -41,11 +41,13 @@ V3V4 == /\ phase = "V2" /\ phase' = "V4"
         /\ UNCHANGED <<code, stored, nreq>>
 Talk == /\ phase \in {"V4", "talk"} /\ nreq < MaxReq /\ phase' = "talk" /\ nreq' = nreq + 1
         /\ Say("resp") /\ UNCHANGED <<code, stored, mode>>
-Next == M1M2 \/ M3M4 \/ M5M6 \/ V1V2 \/ V3V4 \/ Talk
+\* a failed attempt does not spoil the connection: the user enters the right code and starts again
+Retry == phase = "M4err" /\ code = "retry" /\ phase' = "start" /\ code' = "right" /\ UNCHANGED <<stored, mode, nreq, last>>
+Next == M1M2 \/ M3M4 \/ M5M6 \/ V1V2 \/ V3V4 \/ Talk \/ Retry
 Spec == Init /\ [][Next]_vars
 
 HandOver == /\ (last.m \in {"M2", "M4", "M4err", "M6", "V2", "V4"} => last.framed = "plain")
             /\ (last.m = "resp" => last.framed = "enc")
 StoredOnlyAfterM6 == stored <=> phase \in {"M6", "V2", "V4", "talk"}
-WrongCodeStoresNothing == code = "wrong" => ~stored /\ phase \in {"start", "M2", "M4err"}
+WrongCodeStoresNothing == code \in {"wrong", "retry"} => ~stored /\ phase \in {"start", "M2", "M4err"}
 =======================================================================
